@@ -29,7 +29,9 @@ RULE = (
     "cases = one BlockMean.filter call (seeded clouds of 1..150 points in 1..49 blocks with 1..150 members, 1..3 components with "
     "distinct fields incl. plateaus that give zero-variance blocks, weights none / per-component 10^[-3,3], uncertainty on/off, "
     "spacing|shape, region inferred/padded/shrunk, centre/drop flags, arrays 1-D/2-D/Fortran/strided/read-only and pandas Series with "
-    "shuffled index) or one variance_to_weights call (arrays of 1..40 variances 10^[-6,6] with zeros, 1e-300, NaNs, negatives, values "
+    "shuffled index, data components float64/float32/int16/int32/int64 uniform or mixed in both orders, integer weights; histories on ONE "
+    "instance with region=None or given: cloud A, another cloud, a subset, other data, A again, clones after the calls, and the same "
+    "ndarrays modified in place between calls) or one variance_to_weights call (arrays of 1..40 variances 10^[-6,6] with zeros, 1e-300, NaNs, negatives, values "
     "at / beside tol, 1-D/2-D/0-d, tuples of 1..3 arrays, lists, Series, read-only, float32/int input, tol in {default,0,1e-3,10}, "
     "dtype float64/float32). Non-trivial BlockMean case = at least 2 blocks with >= 2 members whose rule quantity (variance, sum of "
     "weights, weighted variance) differs; non-trivial variance_to_weights case = at least 2 distinct variances above tol plus a "
@@ -43,20 +45,51 @@ ASSUMPTIONS = [
     "the unweighted block variance may follow ddof=0 or ddof=1 provided one convention explains every block of a component",
     "variances at or below variance_to_weights' documented default tol=1e-15 (single-member and constant blocks) get weight 1",
     "variance_to_weights: values within 1e-9*tol of tol but not equal to it are either-way (array skipped); +-inf is not judged",
+    "the reference works on float64(values); a component handed over as float32 uses the float32 epsilon in its bounds and is called "
+    "uninformative from a weight tolerance of 2e-2 (float64: 1e-3); constant float32 blocks are skipped",
+    "constant blocks (single weighted members included: x*w/w may be one ulp off x) whose rounding noise 4*(n*eps*|x|)^2 can reach the "
+    "absolute 1e-15 cutoff are skipped and counted, not judged",
+    "the configuration of a call is the get_params() snapshot taken before the call; get_params() must be the same afterwards",
 ]
 FLOORS = {
-    "quick": {"eval:blockmean_returns": 570, "eval:blockmean_layout": 570, "eval:labels_vs_reference_geometry": 570,
-              "eval:block_mean_value": 8600, "eval:block_coordinate": 11000, "eval:block_weight_rule": 1000, "eval:block_weight_range": 1000,
-              "eval:blockmean_inputs_unmodified": 580, "eval:uncertainty_without_weights_rejected": 12, "eval:v2w_values": 2000,
-              "eval:v2w_input_unmodified": 1900, "eval:v2w_returns": 1900, "eval:series_backing_store_unmodified": 30,
-              "distinct_nontrivial": 1350, "class:rule:variance": 190, "class:rule:uncertainty": 155, "class:rule:weighted_variance": 190,
-              "v2w_class:readonly": 900, "v2w_class:has_nan": 540},
-    "thorough": {"eval:blockmean_returns": 8500, "eval:blockmean_layout": 8500, "eval:labels_vs_reference_geometry": 8500,
-                 "eval:block_mean_value": 136000, "eval:block_coordinate": 175000, "eval:block_weight_rule": 15000,
-                 "eval:block_weight_range": 15000, "eval:blockmean_inputs_unmodified": 8600, "eval:uncertainty_without_weights_rejected": 96,
-                 "eval:v2w_values": 30000, "eval:v2w_input_unmodified": 28000, "eval:v2w_returns": 28000,
-                 "eval:series_backing_store_unmodified": 240, "distinct_nontrivial": 20000, "class:rule:variance": 3000,
-                 "class:rule:uncertainty": 2400, "class:rule:weighted_variance": 3000, "v2w_class:readonly": 13000, "v2w_class:has_nan": 8500},
+    "quick": {
+        "eval:blockmean_returns": 660, "eval:blockmean_layout": 660, "eval:labels_vs_reference_geometry": 660,
+        "eval:params_unchanged_by_filter": 670, "eval:block_mean_value": 9700, "eval:block_coordinate": 12900,
+        "eval:block_weight_rule": 1000, "eval:block_weight_range": 1100, "eval:blockmean_inputs_unmodified": 670,
+        "eval:uncertainty_without_weights_rejected": 12, "eval:v2w_values": 2000, "eval:v2w_input_unmodified": 1900,
+        "eval:v2w_returns": 1900, "eval:series_backing_store_unmodified": 32, "distinct_nontrivial": 1300,
+        "class:rule:variance": 220, "class:rule:uncertainty": 170, "class:rule:weighted_variance": 220,
+        "v2w_class:readonly": 950, "v2w_class:has_nan": 480, "class:data_dtype_present:int16": 56,
+        "class:data_dtype_present:int32": 64, "class:data_dtype_present:int64": 61, "class:data_dtype_present:float32": 92,
+        "block_weight_rule_judged:data_dtype:int16": 77, "block_weight_rule_judged:data_dtype:int32": 77,
+        "block_weight_rule_judged:data_dtype:int64": 78, "block_weight_rule_judged:data_dtype:float32": 73,
+        "class:mixed_data_dtypes:integer_then_float64": 21, "class:mixed_data_dtypes:float64_then_integer": 20,
+        "class:mixed_data_dtypes:float32_then_float64": 14, "class:mixed_data_dtypes:float64_then_float32": 13,
+        "class:weights_dtype_present:int32": 55, "class:weights_dtype_present:int64": 47, "class:history:reuse_calls": 110,
+        "class:history:reuse_calls:region_none": 78, "class:history:reuse_calls:region_given": 11,
+        "class:history:reuse_calls:rule_variance": 30, "class:history:reuse_calls:rule_uncertainty": 22,
+        "class:history:reuse_calls:rule_weighted_variance": 22, "class:history:inplace_calls": 57,
+        "class:history:inplace_calls:region_none": 35, "class:history:clone_after_filter_calls": 32,
+    },
+    "thorough": {
+        "eval:blockmean_returns": 9800, "eval:blockmean_layout": 9800, "eval:labels_vs_reference_geometry": 9800,
+        "eval:params_unchanged_by_filter": 9900, "eval:block_mean_value": 150500, "eval:block_coordinate": 196500,
+        "eval:block_weight_rule": 16300, "eval:block_weight_range": 17000, "eval:blockmean_inputs_unmodified": 9900,
+        "eval:uncertainty_without_weights_rejected": 96, "eval:v2w_values": 29900, "eval:v2w_input_unmodified": 28400,
+        "eval:v2w_returns": 28400, "eval:series_backing_store_unmodified": 240, "distinct_nontrivial": 19900,
+        "class:rule:variance": 3400, "class:rule:uncertainty": 2800, "class:rule:weighted_variance": 3400,
+        "v2w_class:readonly": 14500, "v2w_class:has_nan": 7200, "class:data_dtype_present:int16": 1100,
+        "class:data_dtype_present:int32": 1100, "class:data_dtype_present:int64": 1000, "class:data_dtype_present:float32": 1700,
+        "block_weight_rule_judged:data_dtype:int16": 1400, "block_weight_rule_judged:data_dtype:int32": 1400,
+        "block_weight_rule_judged:data_dtype:int64": 1300, "block_weight_rule_judged:data_dtype:float32": 1400,
+        "class:mixed_data_dtypes:integer_then_float64": 430, "class:mixed_data_dtypes:float64_then_integer": 360,
+        "class:mixed_data_dtypes:float32_then_float64": 340, "class:mixed_data_dtypes:float64_then_float32": 330,
+        "class:weights_dtype_present:int32": 940, "class:weights_dtype_present:int64": 930, "class:history:reuse_calls": 1600,
+        "class:history:reuse_calls:region_none": 1200, "class:history:reuse_calls:region_given": 390,
+        "class:history:reuse_calls:rule_variance": 560, "class:history:reuse_calls:rule_uncertainty": 520,
+        "class:history:reuse_calls:rule_weighted_variance": 530, "class:history:inplace_calls": 860,
+        "class:history:inplace_calls:region_none": 640, "class:history:clone_after_filter_calls": 480,
+    },
 }
 JOBS = {"quick": 1, "thorough": 16}
 CASE_TIMEOUT_S = 120
@@ -67,8 +100,8 @@ EPS = blk.EPS
 
 def plan(tier):
     if tier == "quick":
-        return collections.OrderedDict(blockmean=155, plateau=34, series=42, reject=8, nested=6, v2w=50, v2w_nested_readonly=8)
-    return collections.OrderedDict(blockmean=2300, plateau=500, series=640, reject=60, nested=80, v2w=800, v2w_nested_readonly=60)
+        return collections.OrderedDict(blockmean=130, plateau=30, series=36, reject=8, nested=6, v2w=45, v2w_nested_readonly=8, reuse=20, inplace=12)
+    return collections.OrderedDict(blockmean=1950, plateau=450, series=540, reject=60, nested=80, v2w=680, v2w_nested_readonly=60, reuse=300, inplace=180)
 
 
 # ----------------------------------------------------------------------
@@ -151,7 +184,7 @@ def _block_statistics(d, w, members):
     return n, m, ss, sw, float(np.max(np.abs(v))), bool(v.min() == v.max())
 
 
-def _expected_from_variances(variances, bounds, constant, noise):
+def _expected_from_variances(variances, bounds, constant, noise, eps_out=EPS):
     """
     Weights of the variance rules for one component under one convention, or a skip reason.
     ``variances`` may hold NaN (ddof=1, one member); ``bounds`` = absolute error bounds; ``constant`` = all members equal
@@ -177,7 +210,7 @@ def _expected_from_variances(variances, bounds, constant, noise):
         # the smallest positive variance may be any block whose variance is within its error of the minimum
         vmin = clean[positive].min()
         rel_min = float(np.max(relv[positive & (clean <= vmin * (1 + 2 * np.max(relv[positive])))]))
-        rel = np.where(positive, 16 * EPS + 2 * (relv + rel_min), 0.0)
+        rel = np.where(positive, 16 * eps_out + 2 * (relv + rel_min), 0.0)
     return (want, rel), None
 
 
@@ -188,6 +221,8 @@ def _judge_block_weights(call, comp, observed, rule):
     d = call.data[comp]
     w = None if rule == "variance" else call.weights[comp]
     stats = [_block_statistics(d, w, members) for _, members in call.groups]
+    eps = call.data_eps[comp]  # float64 unless this component's data (or weights) were handed over as float32
+    narrow = eps > EPS
     nmem = np.array([s[0] for s in stats])
     got = np.asarray(observed, dtype="float64")
     out = {"status": "judged", "problem": None, "convention": None, "worst": 0.0, "expected": None, "informative": False}
@@ -197,7 +232,7 @@ def _judge_block_weights(call, comp, observed, rule):
             out["status"] = "skipped:sum_of_weights_out_of_range"
             return out
         want = sums / sums.max()
-        rel = np.full(want.shape, 64 * EPS * (call.npoints + 1))
+        rel = np.full(want.shape, 64 * eps * (call.npoints + 1))
         candidates = [("sum_of_weights", want, rel)]
         big = sums[nmem >= 2]
         out["informative"] = big.size >= 2 and big.min() != big.max()
@@ -205,8 +240,12 @@ def _judge_block_weights(call, comp, observed, rule):
         ss = np.array([s[2] for s in stats])
         maxabs = np.array([s[4] for s in stats])
         const = np.array([s[5] for s in stats])
-        bounds = 64 * EPS * nmem * maxabs ** 2 + blk.TINY
-        noise = 4 * (nmem * EPS * maxabs) ** 2
+        bounds = 64 * eps * nmem * maxabs ** 2 + blk.TINY
+        # an unweighted single member deviates from its own mean (x/1) by exactly zero in any arithmetic; a weighted one
+        # does not (x*w/w may be one ulp off x), and squared that ulp exceeds the absolute 1e-15 cutoff for |x| > ~1e8
+        noise = 4 * (nmem * eps * maxabs) ** 2
+        if rule == "variance":
+            noise = np.where(nmem == 1, 0.0, noise)
         candidates = []
         reasons = []
         if rule == "variance":
@@ -216,7 +255,7 @@ def _judge_block_weights(call, comp, observed, rule):
             sw = np.array([s[3] for s in stats])
             conventions = [("weighted_variance", ss / sw)]
         for name, variances in conventions:
-            res, reason = _expected_from_variances(variances, bounds, const, noise)
+            res, reason = _expected_from_variances(variances, bounds, const, noise, eps)
             if res is None:
                 reasons.append(reason)
             else:
@@ -227,8 +266,9 @@ def _judge_block_weights(call, comp, observed, rule):
         base = np.where(const, 0.0, conventions[0][1])
         big = base[(nmem >= 2) & (base > DEFAULT_TOL)]
         out["informative"] = big.size >= 2 and big.min() != big.max()
-    if max(float(np.max(rel)) for _, _, rel in candidates) > 1e-3:
-        out["status"] = "skipped:ill_conditioned_variance(tolerance>1e-3)"
+    # float32 operands: the bound is built on the float32 epsilon, so "uninformative" starts later (2e-2 instead of 1e-3)
+    if max(float(np.max(rel)) for _, _, rel in candidates) > (2e-2 if narrow else 1e-3):
+        out["status"] = "skipped:ill_conditioned_variance(float32 operand, tolerance>2e-2)" if narrow else "skipped:ill_conditioned_variance(tolerance>1e-3)"
         return out
     matched = []
     for name, want, rel in candidates:
@@ -348,21 +388,32 @@ def install(tap, run):
     # ---- BlockMean.filter ---------------------------------------------
     def pre_filter(ev):
         a = ev.args
-        return core.digest([list(a["coordinates"]) if isinstance(a["coordinates"], (tuple, list)) else a["coordinates"], a["data"], a["weights"]])
+        return {"digest": core.digest([list(a["coordinates"]) if isinstance(a["coordinates"], (tuple, list)) else a["coordinates"], a["data"], a["weights"]]),
+                "params": blk.snapshot_params(a["self"])}
 
     def post_filter(ev):
         a = ev.args
         est = a["self"]
         wts = blk.as_tuple(a["weights"])
         weighted = wts is not None and not any(w is None for w in wts)
-        uncertainty = bool(est.uncertainty)
+        params = ev.pre["params"]
+        cfg = blk.types.SimpleNamespace(**params)  # the configuration the call was handed (before the call)
+        uncertainty = bool(cfg.uncertainty)
+        run.evaluated("params_unchanged_by_filter")
+        changed = blk.params_changed(params, est)
+        if changed:
+            run.violation("params_unchanged_by_filter", "BlockMean.filter rewrote constructor parameter(s) %s" % changed,
+                          {"before": {k: (getattr(v, "__name__", repr(v)) if callable(v) else v) for k, v in params.items()},
+                           "after": {k: (getattr(v, "__name__", repr(v)) if callable(v) else v) for k, v in est.get_params(deep=False).items()}},
+                          key="params:" + ",".join(changed))
+        est = cfg
         witness_in = {"coordinates": list(a["coordinates"]), "data": a["data"], "weights": a["weights"],
                       "config": {"spacing": est.spacing, "shape": est.shape, "region": est.region, "adjust": est.adjust,
                                  "center_coordinates": est.center_coordinates, "drop_coords": est.drop_coords, "uncertainty": uncertainty}}
         # purity first: it holds for returns and raises alike
         run.evaluated("blockmean_inputs_unmodified")
         after = core.digest([list(a["coordinates"]) if isinstance(a["coordinates"], (tuple, list)) else a["coordinates"], a["data"], a["weights"]])
-        if after != ev.pre:
+        if after != ev.pre["digest"]:
             run.violation("blockmean_inputs_unmodified", "BlockMean.filter changed one of its input arrays", witness_in, key="filter:input_modified")
 
         if uncertainty and not weighted:
@@ -381,7 +432,7 @@ def install(tap, run):
                 witness_in, key="filter:raised:" + type(ev.exc).__name__)
             return
 
-        call = blk.Call(ev)
+        call = blk.Call(ev, params)
         rule = "variance" if not weighted else ("uncertainty" if uncertainty else "weighted_variance")
         run.count("class:rule:" + rule)
         for cls in call.classes():
@@ -445,6 +496,7 @@ def install(tap, run):
                 run.count(verdict["status"])
                 continue
             run.evaluated("block_weight_rule")
+            run.count("block_weight_rule_judged:data_dtype:" + call.data_dtypes[c])
             run.count("block_weights_judged", got.size)
             informative = informative or verdict["informative"]
             if verdict["problem"]:
@@ -474,10 +526,17 @@ def install(tap, run):
 # ----------------------------------------------------------------------
 # workload
 # ----------------------------------------------------------------------
-def _fields(rng, east, north, ncomp, plateau=False):
+def _weights(rng, size, ncomp):
+    weights = [blk.integer_weights(rng, size) if rng.random() < 0.2 else 10 ** rng.uniform(-3, 3, size) for _ in range(ncomp)]
+    if rng.random() < 0.15:  # the same uncertainty everywhere in one component
+        weights[0] = np.full(size, 10 ** rng.uniform(-3, 3))
+    return weights
+
+
+def _fields(rng, east, north, ncomp, plateau=False, dtypes=None):
     out = []
     amplitude = gen.log_uniform(rng, 1e-3, 1e3 if plateau else 1e6)
-    for _ in range(ncomp):
+    for k in range(ncomp):
         pick = rng.random()
         if pick < 0.5:
             d = gen.smooth_field(rng, east, north, amplitude=amplitude * rng.uniform(0.2, 5))
@@ -488,6 +547,11 @@ def _fields(rng, east, north, ncomp, plateau=False):
         if plateau:
             step = amplitude * rng.choice([0.5, 2.0, 10.0])
             d = np.round(d / step) * step  # many equal values: constant (zero-variance) blocks
+        if dtypes is not None:
+            if dtypes[k] == "float32" and rng.random() < 0.7:
+                # float32 operands put the float32 epsilon into the variance bound: keep those fields well conditioned
+                d = amplitude * rng.normal(size=east.size)
+            d = blk.retype(rng, d, dtypes[k])
         out.append(d)
     return out
 
@@ -502,12 +566,13 @@ def _one_call(run, rng, verde, layout=None, rule=None, plateau=False, npoints=No
     ncomp = int(rng.choice([1, 2, 3], p=[.4, .35, .25]))
     if rule is None:
         rule = str(rng.choice(["variance", "uncertainty", "weighted_variance"]))
-    data = _fields(rng, east, north, ncomp, plateau)
+    dtypes = blk.choose_dtypes(rng, ncomp)
+    if plateau:  # constant blocks of float32 data are undecidable (rounding noise of a float32 mean may exceed the 1e-15 cutoff)
+        dtypes = ["float64" if d == "float32" else d for d in dtypes]
+    data = _fields(rng, east, north, ncomp, plateau, dtypes)
     weights = None
     if rule != "variance":
-        weights = [10 ** rng.uniform(-3, 3, east.size) for _ in range(ncomp)]
-        if rng.random() < 0.15:  # the same uncertainty everywhere in one component
-            weights[0] = np.full(east.size, 10 ** rng.uniform(-3, 3))
+        weights = _weights(rng, east.size, ncomp)
     if rule == "uncertainty":
         kwargs["uncertainty"] = True
     n_extra = int(rng.choice([0, 1, 2], p=[.6, .3, .1]))
@@ -532,6 +597,75 @@ def _one_call(run, rng, verde, layout=None, rule=None, plateau=False, npoints=No
         result = verde.BlockMean(**kwargs).filter(tuple(coords), data_arg, weights_arg)
     return {"rule": rule, "kwargs": kwargs, "layout": layout, "easting": east, "northing": north, "data": data, "weights": weights,
             "result_coordinates": result[0], "result_mean": result[1], "result_weights": result[2]}
+
+
+def _history(run, rng, verde, inplace):
+    """
+    Several filter calls on ONE BlockMean instance (and on clones taken after a call); each return is judged against its own
+    arguments (region=None: the blocks of that call's bounding box) and the constructor parameters must survive every call.
+    """
+    import sklearn.base
+
+    east, north = blk.make_points(rng, n=int(rng.integers(10, 60)), kind=str(rng.choice(["uniform", "jitter", "clusters"])))
+    kwargs = blk.history_blocks(rng, east, north)
+    rule = str(rng.choice(["variance", "uncertainty", "weighted_variance"]))
+    if rule == "uncertainty":
+        kwargs["uncertainty"] = True
+    ncomp = int(rng.choice([1, 2]))
+    dtypes = blk.choose_dtypes(rng, ncomp)
+
+    def arguments(e, n):
+        data = _fields(rng, e, n, ncomp, False, dtypes)
+        wts = None if rule == "variance" else _weights(rng, e.size, ncomp)
+        return (e, n), (data[0] if ncomp == 1 else tuple(data)), (None if wts is None else (wts[0] if ncomp == 1 else tuple(wts)))
+
+    reducer = verde.BlockMean(**kwargs)
+    tag = "inplace" if inplace else "reuse"
+    with warnings.catch_warnings():
+        warnings.simplefilter("ignore")
+        if not inplace:
+            first = arguments(east, north)
+            reducer.filter(*first)
+            second = arguments(*blk.other_cloud(rng, east, north))
+            reducer.filter(*second)
+            keep = np.sort(rng.permutation(east.size)[: max(1, east.size // 2)])
+            reducer.filter(*arguments(east[keep].copy(), north[keep].copy()))
+            shifted = arguments(east, north)
+            reducer.filter(first[0], shifted[1], shifted[2])
+            reducer.filter(*first)
+            twin = sklearn.base.clone(reducer)
+            twin.filter(*second)
+            twin.filter(*first)
+            calls = 7
+            run.count("class:history:clone_after_filter_calls", 2)
+        else:
+            coords, data, wts = arguments(east.copy(), north.copy())
+            originals = [c.copy() for c in coords]
+            reducer.filter(coords, data, wts)
+            for step in range(3):  # the very same ndarrays (and tuple), modified in place between the calls
+                if step == 0:
+                    coords[0][:] = coords[0] * rng.uniform(1.3, 2.5) + (np.ptp(originals[0]) or 1.0) * rng.uniform(-1, 1)
+                    coords[1][:] = coords[1] * rng.uniform(0.3, 0.8) - (np.ptp(originals[1]) or 1.0) * rng.uniform(-1, 1)
+                elif step == 1:
+                    perm = rng.permutation(east.size)
+                    for c in coords:
+                        c[:] = c[perm]
+                else:
+                    for c, o in zip(coords, originals):
+                        c[:] = o
+                fresh = arguments(coords[0], coords[1])
+                for target, source in zip(data if isinstance(data, tuple) else (data,), fresh[1] if isinstance(fresh[1], tuple) else (fresh[1],)):
+                    target[:] = source
+                if wts is not None:
+                    for target in (wts if isinstance(wts, tuple) else (wts,)):
+                        target[:] = rng.integers(1, 60, target.size) if target.dtype.kind in "iu" else 10 ** rng.uniform(-3, 3, target.size)
+                reducer.filter(coords, data, wts)
+            calls = 4
+    run.count("class:history:%s_calls" % tag, calls)
+    run.count("class:history:%s_calls:%s" % (tag, "region_given" if kwargs.get("region") is not None else "region_none"), calls)
+    run.count("class:history:%s_calls:rule_%s" % (tag, rule), calls)
+    if kwargs["center_coordinates"]:
+        run.count("class:history:%s_calls:center_coordinates" % tag, calls)
 
 
 def _variance_array(rng, size=None):
@@ -597,7 +731,13 @@ def run_case(run, tap, stream, index, rng):
     import pandas as pd
     import verde
 
-    if stream == "blockmean":
+    if stream == "reuse":
+        for _ in range(2):
+            _history(run, rng, verde, inplace=False)
+    elif stream == "inplace":
+        for _ in range(3):
+            _history(run, rng, verde, inplace=True)
+    elif stream == "blockmean":
         for _ in range(CALLS_PER_CASE):
             info = _one_call(run, rng, verde)
         run.sample("blockmean_call", info)
